@@ -276,6 +276,29 @@ pub fn run(ctx: &mut Ctx) {
         }
         let _ = round;
     }
+    // verdicts that depend on data movement (gen::layout_verdict_plan)
+    {
+        let want = ctx.scale(2500, 100_000);
+        let mut done = 0;
+        for _ in 0..5 * want {
+            if done >= want {
+                break;
+            }
+            let plan = gen::layout_verdict_plan(&mut ctx.rng.fork());
+            if plan.nodes.len() > 200 {
+                continue;
+            }
+            let (_, einfo) = shared::gen_env(0);
+            let Ok(wits) = shared::witnesses_for(&plan, &mut ctx.rng, &einfo) else {
+                ctx.count("generator:layout-rejected");
+                continue;
+            };
+            if one(ctx, &Case { plan, wits, env_seed: 0 }) {
+                done += 1;
+                ctx.count("reach:layout-verdict-family");
+            }
+        }
+    }
     let n = ctx.scale(2400, 150_000);
     let mut done = 0;
     let mut it = 0u64;
